@@ -189,8 +189,9 @@ func mpEncode(v any) []byte {
 }
 
 func mpDecode(b []byte, v any) error {
+	// slice based decoder: declared lengths are checked against the input before anything is allocated
 	hd := codec.MsgpackHandle{}
-	return codec.NewDecoder(bytes.NewReader(b), &hd).Decode(v)
+	return codec.NewDecoderBytes(b, &hd).Decode(v)
 }
 
 // Encode returns [type][msgpack(v)].
@@ -644,8 +645,7 @@ func (c Codec) DecodeStream(b []byte) (*StreamMsg, error) {
 	m.Type = plain[0]
 	body := plain[1:]
 	hd := codec.MsgpackHandle{}
-	r := bytes.NewReader(body)
-	dec := codec.NewDecoder(r, &hd)
+	dec := codec.NewDecoderBytes(body, &hd) // slice based: nothing is allocated for lengths the input cannot back
 	switch m.Type {
 	case PushPullMsg:
 		var h PushPullHeader
@@ -663,9 +663,8 @@ func (c Codec) DecodeStream(b []byte) (*StreamMsg, error) {
 			}
 			m.Nodes = append(m.Nodes, n)
 		}
-		// The msgpack decoder does not read ahead (memberlist itself reads
-		// the user state from the same reader), so what is left is the tail.
-		rest := body[len(body)-r.Len():]
+		// what follows the node list is the user state
+		rest := body[min(dec.NumBytesRead(), len(body)):]
 		if h.UserStateLen != len(rest) {
 			return nil, fmt.Errorf("declared user state length %d but %d bytes follow the node list", h.UserStateLen, len(rest))
 		}
@@ -675,7 +674,7 @@ func (c Codec) DecodeStream(b []byte) (*StreamMsg, error) {
 		if err := dec.Decode(&h); err != nil {
 			return nil, err
 		}
-		rest := body[len(body)-r.Len():]
+		rest := body[min(dec.NumBytesRead(), len(body)):]
 		if h.UserMsgLen != len(rest) {
 			return nil, fmt.Errorf("declared user message length %d but %d bytes follow", h.UserMsgLen, len(rest))
 		}
